@@ -1,7 +1,6 @@
 package props
 
 import (
-	"unicode"
 	"encoding/json"
 	"fmt"
 	"math/rand"
@@ -9,6 +8,7 @@ import (
 	"regexp"
 	"sort"
 	"strings"
+	"unicode"
 
 	"github.com/reeflective/readline"
 	"github.com/reeflective/readline/inputrc"
